@@ -9,8 +9,10 @@ HEADCMD=$(head -1 $D/demo.cpp | sed -n 's,^// *\(\(g++\|mpicxx\) .*\)$,\1,p')
 HEADCMD=$(echo "$HEADCMD" | sed 's#[^ ]*demo\.cpp#demo.cpp#; s#-o  *[^ ]*#-o demo#')
 if [ -n "$HEADCMD" ] && [ -z "$NP" ]; then CMD="$HEADCMD"; case "$HEADCMD" in mpicxx*) RUN="mpirun --allow-run-as-root --oversubscribe -np 3 ./demo";; *) RUN="./demo";; esac; fi
 build() { (cd $WT && cp $D/demo.cpp . && eval "$CMD" 2>&1 | tail -3); }
+export OMP_NUM_THREADS=${OMP_NUM_THREADS:-2}
 build; (cd $WT && timeout 900 $RUN > /tmp/sv_clean_$$.txt 2>&1); RC1=$?
 if ! git -C $WT apply $D/patch.diff 2>/tmp/sv_apply_$$.txt; then echo "PATCH-DOES-NOT-APPLY: $(cat /tmp/sv_apply_$$.txt | head -2)"; git -C /repo worktree remove --force $WT; exit 3; fi
+export OMP_NUM_THREADS=${OMP_NUM_THREADS:-2}
 build; (cd $WT && timeout 900 $RUN > /tmp/sv_patched_$$.txt 2>&1); RC2=$?
 echo "clean rc=$RC1 ($(tail -1 /tmp/sv_clean_$$.txt | cut -c1-80)) patched rc=$RC2 ($(tail -1 /tmp/sv_patched_$$.txt | cut -c1-80))"
 git -C /repo worktree remove --force $WT
